@@ -332,9 +332,10 @@ impl Prop for C17 {
     }
     fn post_batch(&self, seed: u64, total: u64, tier: Tier) -> Vec<Scenario> {
         let mut sc = Scenario::new("C17", "crossproc");
-        let runs = total.min(if tier == Tier::Quick { 4_000 } else { 100_000 });
+        let runs = total.min(if tier == Tier::Quick { 4_000 } else { 40_000 });
         sc.set_int("seed", seed as i64);
         sc.set_int("runs", runs as i64);
+        sc.set_int("chunk", if tier == Tier::Quick { 100 } else { 400 });
         sc.set_int("thorough", (tier == Tier::Thorough) as i64);
         vec![sc]
     }
@@ -342,31 +343,73 @@ impl Prop for C17 {
     fn execute(&self, sc: &Scenario) -> RunOut {
         let mut out = RunOut::default();
         if sc.mode == "crossproc" {
-            // the same seeds in two further OS processes (fresh ASLR, fresh hasher seeds), 3 and 16 workers
+            // The first `runs` seeds of the batch are executed again in many short-lived OS processes (fresh ASLR,
+            // fresh hasher seeds, fresh statics; alternately 3 and 16 workers), `chunk` runs each, and every run's
+            // history hash is compared with the one the long-lived main process computed: state that lives in the
+            // process (a static, a once-flag, a global counter) makes a young process answer differently from an old one.
             let seed = sc.int("seed").unwrap_or(0) as u64;
             let runs = sc.int("runs").unwrap_or(0).max(1) as u64;
-            let tier = if sc.int("thorough").unwrap_or(0) != 0 { "thorough" } else { "quick" };
-            let child = |workers: &str| -> Option<String> {
-                let exe = std::env::current_exe().ok()?;
-                let o = std::process::Command::new(exe).args(["run", "C17", tier, "--seed", &seed.to_string(), "--runs", &runs.to_string(), "--workers", workers, "--hash-only"]).output().ok()?;
-                let s = String::from_utf8_lossy(&o.stdout).to_string();
-                s.lines().find(|l| l.starts_with("BATCH-HASH")).and_then(|l| l.split("hash=").nth(1)).map(|x| x.trim().to_string())
-            };
-            let (a, b) = (child("3"), child("16"));
-            match (a, b) {
-                (Some(a), Some(b)) => {
-                    out.stats.add("oracle.cross_process_runs_compared", runs);
-                    out.stats.hit("reach.cross_process_pair");
-                    out.nontrivial = true;
-                    if a != b {
-                        out.violation = Some(Violation::new("cross_process_divergence", "", 0, format!("the same {} seeds executed in two separate processes gave different history hashes: {} vs {}", runs, a, b)));
-                    }
-                }
+            let chunk = sc.int("chunk").unwrap_or(100).max(1) as u64;
+            let thorough = sc.int("thorough").unwrap_or(0) != 0;
+            let tier = if thorough { "thorough" } else { "quick" };
+            let main: Vec<(u64, u64)> = match crate::props::MAIN_HISTS.lock().unwrap().clone() {
+                Some(v) if v.len() as u64 >= runs => v,
                 _ => {
-                    eprintln!("HARNESS ERROR: could not run the cross-process children");
+                    // replay in a fresh process: age this process by executing the runs here first
+                    let t = if thorough { Tier::Thorough } else { Tier::Quick };
+                    (0..runs)
+                        .map(|i| {
+                            let mut rng = Rng::new(crate::rng::run_seed(seed, "C17", i));
+                            let s = self.generate(i, &mut rng, t);
+                            (i, crate::runner::exec_hermetic(self, &s).hist)
+                        })
+                        .collect()
+                }
+            };
+            let exe = match std::env::current_exe() {
+                Ok(e) => e,
+                Err(_) => {
+                    eprintln!("HARNESS ERROR: current_exe");
                     std::process::exit(2);
                 }
+            };
+            let mut from = 0u64;
+            let mut c = 0u64;
+            while from < runs {
+                let n = chunk.min(runs - from);
+                let tmp = std::env::temp_dir().join(format!("sim-cross-{}-{}.txt", std::process::id(), c));
+                let workers = if c % 2 == 0 { "3" } else { "16" };
+                let st = std::process::Command::new(&exe)
+                    .args(["run", "C17", tier, "--seed", &seed.to_string(), "--from", &from.to_string(), "--runs", &n.to_string(), "--workers", workers, "--hash-only", "--dump-hashes"])
+                    .arg(&tmp)
+                    .output();
+                let txt = std::fs::read_to_string(&tmp).unwrap_or_default();
+                let _ = std::fs::remove_file(&tmp);
+                if st.is_err() || txt.is_empty() {
+                    eprintln!("HARNESS ERROR: could not run a cross-process child");
+                    std::process::exit(2);
+                }
+                for line in txt.lines() {
+                    let mut it = line.split_whitespace();
+                    let i: u64 = it.next().and_then(|x| x.parse().ok()).unwrap_or(u64::MAX);
+                    let hch = it.next().and_then(|x| u64::from_str_radix(x, 16).ok()).unwrap_or(0);
+                    if let Ok(pos) = main.binary_search_by_key(&i, |e| e.0) {
+                        out.stats.hit("oracle.cross_process_runs_compared");
+                        if main[pos].1 != hch && out.violation.is_none() {
+                            out.violation = Some(Violation::new(
+                                "cross_process_divergence",
+                                "",
+                                i as usize,
+                                format!("run {} of seed {} gave history hash {:016x} in the long-lived main process and {:016x} in a fresh process of {} runs: the library keeps state that outlives its views", i, seed, main[pos].1, hch, n),
+                            ));
+                        }
+                    }
+                }
+                out.stats.hit("reach.cross_process_child");
+                from += n;
+                c += 1;
             }
+            out.nontrivial = true;
             return out;
         }
         if let Err(e) = domain_check(sc, MAX_MAG) {
@@ -632,7 +675,7 @@ impl Prop for C17 {
     }
 
     fn rule(&self) -> String {
-        "2-4 initial replicas per run: with probability 0.6 replicas 0 and 1 are twins (same spec, same feed); the others are the same tree with other window lengths or unrelated trees, alive at the same time. The seeded scheduler picks a live replica and an event: Deliver (own feed cursor; with a per-run probability of 0/0.3/0.7/0.95 the delivery is silent, i.e. update() without a following last()), Observe (last() 1-5 times), Fork (clone; the clone either shares the parent's remaining inputs or gets a divergent feed), Restore (dst.clone_from(&src) between two live replicas of the same spec, into fresh and into used instances), Drop, Migrate (subsequent operations of that replica execute on one of two helper OS threads, baton hand-off so exactly one thread runs). After the run every replica's complete observation log is compared bit for bit with a canonical isolated reference computed on a fresh thread: a fresh instance of the same spec fed only that replica's deliveries (a clone's reference replays the parent's history up to the fork) with exactly one last() after every delivery (also after the ones the replica delivered silently), so a last() whose being called or not called changes later results shows up; repeated last() results must equal the latest post-delivery value. The check script additionally runs the whole batch in separate processes with 16 and 3 workers and compares batch hashes. distinct = distinct (topologies, event-kind schedule); non-trivial = a fork, drop, migration or repeated last() fired and a delivery was checked after it."
+        "2-4 initial replicas per run: with probability 0.6 replicas 0 and 1 are twins (same spec, same feed); the others are the same tree with other window lengths or unrelated trees, alive at the same time. The seeded scheduler picks a live replica and an event: Deliver (own feed cursor; with a per-run probability of 0/0.3/0.7/0.95 the delivery is silent, i.e. update() without a following last()), Observe (last() 1-5 times), Fork (clone; the clone either shares the parent's remaining inputs or gets a divergent feed), Restore (dst.clone_from(&src) between two live replicas of the same spec, into fresh and into used instances), Drop, Migrate (subsequent operations of that replica execute on one of two helper OS threads, baton hand-off so exactly one thread runs). After the run every replica's complete observation log is compared bit for bit with a canonical isolated reference computed on a fresh thread: a fresh instance of the same spec fed only that replica's deliveries (a clone's reference replays the parent's history up to the fork) with exactly one last() after every delivery (also after the ones the replica delivered silently), so a last() whose being called or not called changes later results shows up; repeated last() results must equal the latest post-delivery value. After the batch its first 4 000 runs (thorough 40 000) are executed again in 40 (100) short-lived child processes, alternately with 3 and 16 workers, and every run's history hash is compared with the one computed in the long-lived main process. distinct = distinct (topologies, event-kind schedule); non-trivial = a fork, drop, migration or repeated last() fired and a delivery was checked after it."
             .into()
     }
     fn assumptions(&self) -> Vec<String> {
